@@ -277,6 +277,12 @@ class Check:
         )
         with open(os.path.join(EVIDENCE, self.prop + ".json"), "w") as fh:
             json.dump(ev, fh, indent=1, ensure_ascii=False)
+        # a violation with a failing input supersedes "no failing input found" reports
+        if any(not v["no_input"] for v in self.violations):
+            self.violations = [v for v in self.violations if not v["no_input"]]
+            ev["violations"] = len(self.violations)
+            with open(os.path.join(EVIDENCE, self.prop + ".json"), "w") as fh:
+                json.dump(ev, fh, indent=1, ensure_ascii=False)
         for k, n in sorted(self.known_hits.items()):
             f = self.finding_for(k)
             print("KNOWN-FINDING: property=%s %s (%d explored inputs hit it)" % (self.prop, f["what"], n))
